@@ -4,16 +4,17 @@
 # Always rebuilds the harness (and with it fastrace from /repo's working tree, hooks enabled).
 set -u
 export CARGO_NET_OFFLINE=true
-export VERIF_DIR=/verif
-cd /verif/dst || exit 2
-if ! cargo build --release --offline >/verif/target-build.log 2>&1; then
-  # first build creates /verif/target; the log lives next to it
-  cat /verif/target-build.log >&2
+# everything is relative to this script (a snapshot of /verif made by `vp run` works the same way)
+VERIF_DIR="$(cd "$(dirname "$0")" && pwd)"
+export VERIF_DIR
+cd "$VERIF_DIR/dst" || exit 2
+if ! CARGO_TARGET_DIR="$VERIF_DIR/target" cargo build --release --offline >"$VERIF_DIR/target-build.log" 2>&1; then
+  cat "$VERIF_DIR/target-build.log" >&2
   echo "HARNESS ERROR: build failed" >&2
   exit 2
 fi
-cd /verif
-BIN=/verif/target/release/dst
+cd "$VERIF_DIR"
+BIN="$VERIF_DIR/target/release/dst"
 case "${1:-}" in
   replay)
     exec "$BIN" replay "$2"
@@ -23,12 +24,12 @@ case "${1:-}" in
     shift; shift || true
     if [ "$id" = "C16" ]; then
       # part (a): the same generator against fastrace built WITHOUT the enable feature
-      if ! (cd /verif/dst-disabled && cargo build --release --offline >/verif/target-build-disabled.log 2>&1); then
-        cat /verif/target-build-disabled.log >&2; echo "HARNESS ERROR: build of the enable-less harness failed" >&2; exit 2
+      if ! (cd "$VERIF_DIR/dst-disabled" && CARGO_TARGET_DIR="$VERIF_DIR/target-disabled" cargo build --release --offline >"$VERIF_DIR/target-build-disabled.log" 2>&1); then
+        cat "$VERIF_DIR/target-build-disabled.log" >&2; echo "HARNESS ERROR: build of the enable-less harness failed" >&2; exit 2
       fi
       n=4000; [ "$tier" = "thorough" ] && n=80000
-      rm -f /verif/target-disabled/c16-disabled.json
-      /verif/target-disabled/release/dst-disabled "$n" "$(( ${VERIF_SEED:-1} * 1000003 ))" /verif/target-disabled/c16-disabled.json >/dev/null
+      rm -f "$VERIF_DIR/target-disabled/c16-disabled.json"
+      "$VERIF_DIR/target-disabled/release/dst-disabled" "$n" "$(( ${VERIF_SEED:-1} * 1000003 ))" "$VERIF_DIR/target-disabled/c16-disabled.json" >/dev/null
     fi
     exec "$BIN" drive --prop "$id" --tier "$tier" "$@"
     ;;
